@@ -357,9 +357,31 @@ def check_parity_used(prog: Program, res: Result) -> None:
             if d is None:
                 continue
             n += 1
+            # the orbit must be that of the exported descriptor (or an equal
+            # re-expression of it): d.invert() is its mirror image
+            srcs = [d]
+            for a in ast.walk(fi.node):
+                if isinstance(a, ast.Assign) and len(a.targets) == 1 and \
+                        isinstance(a.targets[0], ast.Name) and \
+                        a.targets[0].id == d:
+                    srcs.append(norm(a.value, 300))
+            mirrored = [t for t in srcs if ".invert()" in t]
+            if mirrored:
+                res.bad("R-PARITY-USED", f"{fi.short}: orbit of an inverted "
+                        "descriptor", fi.loc(c), f"{fi.short}: `{norm(c, 70)}` "
+                        f"decides by the orbit of `{d}`, which is "
+                        f"`{mirrored[0][:80]}`: invert() is the mirror image "
+                        "of the descriptor (other arrangement), not the same "
+                        "arrangement written with the other parity; the label "
+                        "of the enantiomer is exported",
+                        instance=f"{fi.short}: `{norm(c, 70)}` uses the "
+                        "orbit of the exported descriptor")
+                continue
             inst = f"{fi.short}: `{norm(c, 70)}` also consults {d}.parity"
             reads = any(isinstance(x, ast.Attribute) and x.attr == "parity"
-                        and norm(x.value) == d for x in ast.walk(fi.node))
+                        and norm(x.value) in srcs + [d]
+                        for x in ast.walk(fi.node)) or any(
+                ".parity" in t for t in srcs[1:])
             if reads:
                 res.ok("R-PARITY-USED", inst, fi.loc(c))
             else:
@@ -384,6 +406,7 @@ def run(prog: Program, res: Result, tier: str) -> None:
     res.rule("T-INVERSE", "the exporter's label tables are the inverse of "
              "the importer's")
     res.rule("R-EXPORT-PURE", "export never changes the exported graph")
+    check_parity_used(prog, res)
     G = Groups(prog)
     imp = importer_tables(prog)
     exp = exporter_model(prog)
@@ -391,7 +414,6 @@ def run(prog: Program, res: Result, tier: str) -> None:
     check_ez_roundtrip(prog, res, G)
     check_optional_label(prog, res)
     check_mapnum_domain(prog, res)
-    check_parity_used(prog, res)
     # ---------------------------------------------------------------- SP, TB
     # bond rewriting inside the export invalidates the neighbour order that
     # tags of OTHER atoms were (or will be) computed against
